@@ -104,3 +104,115 @@ func VH_C02_expand_loc() {
 	}
 	vC02Loc(vShard(n), 4, true)
 }
+
+// ---- Family A (API level): gts.Insert / gts.Embed on sequences -----------------------------
+
+func vFindTagged(ff FeatureSlice, tag string) (Feature, int) {
+	var out Feature
+	n := 0
+	for _, f := range ff {
+		if len(f.Props) > 0 && len(f.Props[0]) > 1 && f.Props[0][0] == "tag" && f.Props[0][1] == tag {
+			out = f
+			n++
+		}
+	}
+	return out, n
+}
+
+//verif:harness prop=C02 quick=6 thorough=12 merge=concrete timeout=1500
+//verif:bounds API level: gts.Insert and gts.Embed with a host of length 0..3 and a guest of length 0..2 (symbolic residues, every insertion index incl. 0 and len(host)); host table: source + one feature (range/point/between | 2-part join | complemented range | 2-part order, symbolic coordinates and flags); guest table: one range with symbolic coordinates (when the guest is non-empty)
+func VH_C02_insert_api() {
+	sh := vShard(6 + 6*vTier())
+	embed := sh%2 == 1
+	shape := (sh / 2) % 4
+	L := 1 + vChoice("L", 3)
+	if sh >= 6 {
+		L = vChoice("L", 4) // thorough also the empty host
+	}
+	G := vChoice("G", 3)
+	hdata, gdata := vBytes("h", L), vBytes("g", G)
+	hff := FeatureSlice{}
+	var hloc Location
+	if L > 0 {
+		hff = hff.Insert(Feature{"source", Range(0, L), Props{[]string{"tag", "src"}}})
+		hloc = vGenApiLoc("hf", L, shape)
+		hff = hff.Insert(Feature{"gene", hloc, Props{[]string{"tag", "h"}, []string{"note", "x"}}})
+	}
+	gff := FeatureSlice{}
+	var gloc Location
+	if G > 0 {
+		gloc = vGenAtom("gf", G, 1)
+		gff = gff.Insert(Feature{"cds", gloc, Props{[]string{"tag", "g"}}})
+	}
+	host, guest := New("hi", hff, hdata), New("gi", gff, gdata)
+	i := vChoice("i", L+1)
+	var out Sequence
+	if embed {
+		out = Embed(host, i, guest)
+	} else {
+		out = Insert(host, i, guest)
+	}
+	vCover("inserted")
+	got := out.Bytes()
+	vAssert("length", len(got) == L+G)
+	if len(got) != L+G {
+		return
+	}
+	for k := 0; k < i; k++ {
+		vAssert("host-prefix", got[k] == hdata[k])
+	}
+	for k := 0; k < G; k++ {
+		vAssert("guest-placed", got[i+k] == gdata[k])
+	}
+	for k := i; k < L; k++ {
+		vAssert("host-suffix", got[G+k] == hdata[k])
+	}
+	off := out.Features()
+	want := len(hff) + len(gff)
+	vAssert("feature-count", len(off) == want)
+	x := vIntIn("x", 0, L+G)
+	vAssume(x < L+G)
+	if L > 0 {
+		f, n := vFindTagged(off, "h")
+		vAssert("host-feature-present-once", n == 1)
+		if n == 1 {
+			vAssert("host-feature-key-and-qualifiers", vAnd(f.Key == "gene", vAnd(len(f.Props) == 2, f.Props[1][1] == "x")))
+			as, bs := vAtoms(hloc), vAtoms(f.Loc)
+			vAssert("host-feature-in-range", vInRange(bs, L+G))
+			for k := 0; k < 2; k++ {
+				rev := k == 1
+				w := vOr(vAnd(x < i, vCovS(as, x, rev)), vAnd(x >= i+G, vCovS(as, x-G, rev)))
+				if embed {
+					strict := false
+					for _, a := range as {
+						strict = vOr(strict, vAnd(a.rev == rev, vAnd(a.s < i, i < a.e)))
+					}
+					w = vOr(w, vAnd(vAnd(i <= x, x < i+G), strict))
+				}
+				vAssert("host-feature-residues", vCovS(bs, x, rev) == w)
+			}
+		}
+		_, ns := vFindTagged(off, "src")
+		vAssert("source-present-once", ns == 1)
+	}
+	if G > 0 {
+		f, n := vFindTagged(off, "g")
+		vAssert("guest-feature-present-once", n == 1)
+		if n == 1 {
+			as, bs := vAtoms(gloc), vAtoms(f.Loc)
+			vAssert("guest-feature-residues", vCovS(bs, x, false) == vAnd(x >= i, vCovS(as, x-i, false)))
+			vAssert("guest-feature-key", f.Key == "cds")
+		}
+	}
+	// sorted table: sources first
+	seen := false
+	for _, f := range off {
+		if f.Key == "source" {
+			vAssert("sources-first", !seen)
+		} else {
+			seen = true
+		}
+	}
+	vAssert("arguments-unchanged", vAnd(len(host.Bytes()) == L, len(guest.Bytes()) == G))
+	vObserve("outlen", len(got))
+}
